@@ -707,3 +707,40 @@ def c03(chk):
     chk.replay(r["cases_file"], timeout=3000)
     chk.canary_cases(r["cases_file"], flip_validation_case)
     chk.assumptions += ["bounds explicit; Ed25519 trusted; error kinds are not compared (the property only asks for an error)"]
+
+
+# ------------------------------------------------------------------------------------------------
+# C07 — credential / presentation <-> JWT claims
+# ------------------------------------------------------------------------------------------------
+
+def flip_claims_case(rows, k=3):
+    out = []
+    for r in rows:
+        if r["row"]["kind"] == "back" and r["out"].get("accept") is True:
+            r = json.loads(json.dumps(r))
+            r["out"]["accept"] = False
+            out.append(r)
+            if len(out) >= k:
+                break
+    if not out:
+        raise ToolError("canary: no consistent claims row")
+    return out
+
+
+@plan("C07")
+def c07(chk):
+    chk.rule = ("TLC checks ToClaims/FromClaims of JwtClaims.tla (round-trip identity, carried-once law) on every credential over "
+                "all optional fields (issuer URL/object, id, expiration, subject id/properties, status, 0..2 schemas, evidence, "
+                "terms of use, refresh service, proof, nonTransferable none/true/false, extra properties, custom claims = 27 648 "
+                "credentials), every presentation over its optional fields and options (4 608), and evaluates the consistency "
+                "table for the reverse direction (each duplicated member registered absent/v x inner absent/v/w, exp and nbf out "
+                "of range, nbf vs iat = 17 340 claim sets). The harness builds each credential/presentation, serialises it "
+                "(JSON inspected for single occurrence), converts it back through the validators with an accept-all verifier and "
+                "compares for equality; reverse rows are crafted claim sets: accept <=> consistent and in range, and on success "
+                "the registered values are the ones used.")
+    r = chk.mc("JwtClaims", "JwtClaims_%s.cfg" % chk.tier, workers=4, timeout=900, heap="4g")
+    chk.replay(r["cases_file"], timeout=7000)
+    chk.canary_cases(r["cases_file"], flip_claims_case)
+    chk.assumptions += ["the claims types are crate-private: the way back goes through JwtCredentialValidator::verify_signature / "
+                        "JwtPresentationValidator::validate with an accept-all JwsVerifier",
+                        "absent custom claims and an empty custom-claims map are identified"]
